@@ -1124,6 +1124,18 @@ fn c12_cands(rng: &mut Rng, _pre: &Snap, _t: Tier) -> Vec<Cand> {
             }
         }
     }
+    // IRM governs insertion whatever the set in use makes of the characters (CP437 / VAX42 turn
+    // zero-width control codes into glyphs) and however many characters one draw() call holds
+    for _ in 0..3 {
+        let mut ops: Vec<Op> = Vec::new();
+        if rng.below(3) != 0 {
+            ops.push(Op::Api(DefineCharset((*rng.pick(&["U", "V", "0"])).into(), "(".into())));
+        }
+        ops.push(Op::Api(if rng.below(4) != 0 { SetMode(vec![4], false) } else { ResetMode(vec![4], false) }));
+        ops.push(Op::Api(CursorPosition(Some(rng.range(1, _pre.lines)), Some(rng.range(1, _pre.columns)))));
+        ops.push(Op::Api(Draw(gen::mixed_api_string(rng))));
+        v.push(Cand { ops });
+    }
     // "erases the screen and homes the cursor" in both directions, with a region and origin mode
     // set while in the other width (home is (0,0) afterwards: the region does not survive)
     for _ in 0..3 {
